@@ -377,8 +377,46 @@ def check_packet_pack(ctx, rule='R7-packet-pack'):
             ctx.violation(rule, fi, st, 'Packet.pack swallows or replaces the failure', h.lineno)
 
 
+def check_who_creates(ctx):
+    """only the drivers create a PacketError: a field (or anything else below a driver) that
+    creates its own makes the driver above it *add* an entry for that same field instead of
+    starting the stack -- one level of nesting would show up twice"""
+    repo = ctx.repo
+    rule = 'R7-one-entry-per-level'
+    pk = repo.cls('Packet')
+    allowed = {pk.methods[m].id for m in ('pack_impl', 'unpack_impl') if m in pk.methods}
+    sites = 0
+    for fi in repo.functions.values():
+        if fi.qual.split('.')[-1] in repo.absorbed:
+            continue
+        nested = [f.node for f in repo.functions.values() if f is not fi and f.file == fi.file and f.qual.startswith(fi.qual + '.')]
+        inner = {id(x) for n_ in nested for x in ast.walk(n_)}
+        for n in ast.walk(fi.node):
+            if id(n) in inner or hasattr(n, '_inl') and getattr(n, '_inl') and False:
+                continue
+            if isinstance(n, ast.Call) and (call_name(n) or '').split('.')[-1] == 'PacketError' and len(n.args) + len(n.keywords) >= 3:
+                sites += 1
+                st = stmt_text(n)[:120]
+                if fi.id in allowed:
+                    ctx.holds(rule, fi, st, 'created by a driver, for the field it was running', n.lineno)
+                else:
+                    ctx.violation(rule, fi, st, 'a PacketError is created below the drivers: the driver that runs this code adds a second entry for the same field, so the stack no longer has one entry per level of nesting', n.lineno, witness=True)
+    for t in repo.templates():
+        if t.tree is None:
+            continue
+        for n in ast.walk(t.tree):
+            if isinstance(n, ast.Call) and (call_name(n) or '').split('.')[-1] == 'PacketError' and len(n.args) + len(n.keywords) >= 3:
+                sites += 1
+                if any(d_ in t.defines() for d_ in ('pack_impl', 'unpack_impl')):
+                    ctx.holds(rule, t.func, stmt_text(n)[:120], 'created by a generated driver, for the field it was running', t.lineno)
+                else:
+                    ctx.violation(rule, t.func, stmt_text(n)[:120], 'a generated block creates its own PacketError below the generated driver', t.lineno, witness=True)
+    ctx.floor('PacketError creation sites', sites, 4)
+
+
 def check(ctx):
     drivers = check_wrappers(ctx)
+    check_who_creates(ctx)
     for d in drivers:
         D.check_cursor_discipline(ctx, 'R7-cursor-at-failure', d, ctx.repo)
         D.check_hooks_wrapped(ctx, 'R7-hooks-inside-try', d)
@@ -408,7 +446,7 @@ def check(ctx):
     c04_check(ctx)
     # colliding positions on pack: the rejected insert must leave the cursor where the field began
     from .c11 import check as c11_check
-    c11_check(ctx, parts=('atomic',))
+    c11_check(ctx, parts=('atomic', 'append'))     # every chunk goes through the collision guards of insert
     check_packet_error_class(ctx)
     ctx.floor('drivers analysed', ctx.units.get('drivers', 0), 4)
     ctx.floor('format sites in PacketError.__str__ and its helpers', ctx.units.get('format_sites', 0), 2)
